@@ -168,6 +168,9 @@ func (g *schemaGen) schema(depth int) *js.Schema {
 			keys := namePool
 			if f.Name == "PatternProperties" {
 				keys = patPool
+			} else if r.chance(1, 3) {
+				// names that need escaping in JSON text (and HTML-sensitive characters)
+				keys = append(append([]string{}, namePool[:3]...), "C:\\temp", "a\\qb", "tab\there", "quo\"te", "end\\", "<a&b>", "\u2028x", "é", "", "nul\x00", "/slash~tilde")
 			}
 			for _, k := range shuffled(r, keys)[:r.intn(3)] {
 				m[k] = g.schema(depth - 1)
